@@ -15,6 +15,7 @@ from simkit import xmlref
 from simkit.kernel import HarnessError, Violation
 from engines import docsim as ds
 from engines import doc_styles
+from engines import doc_reads
 
 EXT = {"text": ".odt", "spreadsheet": ".ods", "presentation": ".odp", "drawing": ".odg", "graphics": ".odg"}
 IMG1 = "/repo/tests/samples/image.png"
@@ -63,6 +64,11 @@ class DocEngine:
         self.cwd0 = os.getcwd()
         os.chdir(self.scratch)
         self.sut = ds.DocSUT(self.scratch)
+        if prop == "C15":
+            import odfdo.mixin_md as _mm
+
+            _mm.MD_GLOBAL.clear()  # process-global export context: every run starts from the import-time state
+            self.canary0 = doc_reads.md_canary()
         self.artifacts = []  # {"path"|"data", "packaging", "expected", "mimetype"}
         self.baseline_c04 = set()
         self.flags = set()
@@ -78,6 +84,7 @@ class DocEngine:
         self.shadow = None  # the original left behind by clone_swap
         self.twin = None  # C10: (DocSUT) the other twin
         self.n_twin_ops = 0
+        self.n_reads_run = 0
 
     def close(self):
         try:
@@ -106,6 +113,8 @@ class DocEngine:
     def nontrivial(self):
         if self.prop == "C10":
             return self.n_twin_ops >= 2
+        if self.prop == "C15":
+            return self.stats.c.get("op:read", 0) >= 1 and self.n_reads_run >= 2
         return self.n_saves >= 1 and (self.n_edits >= 1 or self.n_reopen >= 1)
 
     # ------------------------------------------------------------ generators
@@ -117,7 +126,8 @@ class DocEngine:
         if self.cfg["src_family"] == "template":
             init = {"op": "init", "source": "template:" + rng.choice(ds.TEMPLATES, "tpl")}
         else:
-            init = {"op": "init", "source": "sample:" + rng.choice(ds.DOC_SAMPLES, "sample"),
+            samples = [x for x in ds.DOC_SAMPLES if x != "styled_table.ods"] if self.prop == "C15" else ds.DOC_SAMPLES  # (bounded table sizes)
+            init = {"op": "init", "source": "sample:" + rng.choice(samples, "sample"),
                     "how": rng.weighted([("path", 4), ("pathobj", 1), ("bytesio", 2), ("folder", 3), ("foreign", 2)], "how"),
                     "salt": rng.randint(0, 9, "salt")}
         return init
@@ -141,6 +151,9 @@ class DocEngine:
             if self.twin is None and rng.chance(self.cfg.get("p_clone", 0.45), "clone?"):
                 return {"op": "clone_doc"}
             weights += [("clone_part", 2), ("clone_container", 1), ("twin_save_over_source", 1.5 if (self.twin is not None and self.sut.src.get("path") and self.sut.src["packaging"] == "zip") else 0)]
+        if self.prop == "C15":
+            weights = [("read", 14), ("edit", 3), ("rich_para", 2), ("clear_body", 0.5), ("touch", 1), ("add_file", 0.5),
+                       ("save", 1.5 if self.n_saves < cfg["max_saves"] else 0), ("reopen", 1.5 if self._reopenable() else 0)]
         if self.prop == "C13":
             weights = [("ins_style", 9), ("ins_style_other", 3 if self.other is not None else 0), ("open_other", 1.5 if self.other is None else 0.3),
                        ("merge", 2.5 if self.other is not None else 0), ("page_break_style", 1), ("table_displayed", 1 if self._doc_type() == "spreadsheet" else 0),
@@ -219,6 +232,9 @@ class DocEngine:
             op["source"] = rng.choice(["template:text", "template:spreadsheet", "sample:lpod_styles.odt", "sample:span_style.odt", "sample:example.odt", "sample:styled_table.ods", "sample:example.odp"], "osrc")
         elif name == "table_displayed":
             op["displayed"] = rng.chance(0.5, "disp")
+        elif name == "read":
+            k = rng.choice([1, 1, 2, 3, 5], "nreads")
+            op["entries"] = [rng.choice(doc_reads.ENTRY_NAMES, "entry") for _ in range(k)]
         elif name == "set_part_many":
             op["k"] = rng.choice([2, 5, 12, 16, 20, 30], "many_k")
             op["n"] = n
@@ -581,7 +597,8 @@ class DocEngine:
                     elif kind == "list":
                         body.append(List([f"item {n}", f"item {n}b"]))
                     elif kind == "table":
-                        t = Table(f"Table{n}", width=2, height=2)
+                        # (often with empty trailing rows / columns, as tables drawn by hand have)
+                        t = Table(f"Table{n}", width=2 + n % 3, height=2 + (n // 3) % 3)
                         t.set_value((0, 0), n)
                         t.set_value((1, 1), f"v{n}")
                         body.append(t)
@@ -981,6 +998,86 @@ class DocEngine:
         st.set_part(name, data)
         self.n_edits += 1
         return []
+
+    # ---- C15 ----------------------------------------------------------------------
+    def _op_clear_body(self, op):
+        doc, st = self.sut.doc, self.sut.store
+        res, exc = self._call(lambda: doc.body.clear(), "clear_body")
+        st.touched.add("content.xml")
+        self.n_edits += 1
+        self.flags.add("empty_body")
+        self._outcome = "clear_body"
+        return []
+
+    def _op_read(self, op):
+        doc = self.sut.doc
+        try:
+            m0 = self._memory()
+        except Exception:
+            self._outcome = "read:memory-unreadable"
+            return []
+        feats = self._feats() + ["doctype:" + self._doc_type()]
+        for name in op["entries"]:
+            fn = doc_reads.ENTRY.get(name)
+            if fn is None:
+                continue
+            self.stats.probe("read:" + name)
+            self.n_reads_run += 1
+            a1 = a2 = None
+            exc1 = exc2 = None
+            try:
+                a1 = doc_reads._ser(fn(doc))
+            except Exception as e:
+                exc1 = type(e).__name__
+            try:
+                m1 = self._memory()
+            except Exception as e:
+                self._outcome = "read:memory-unreadable-after"
+                return [Violation("C15", "document-unreadable-after-read", "read:" + name, feats, type(e).__name__, f"{type(e).__name__}: {e}")]
+            d = self._mem_diff_exact(m0, m1)
+            if d:
+                self._outcome = "read:changed"
+                return [Violation("C15", "read-changed-document", "read:" + name, feats + (["read_raised"] if exc1 else []), None, d)]
+            try:
+                a2 = doc_reads._ser(fn(doc))
+            except Exception as e:
+                exc2 = type(e).__name__
+            if exc1 or exc2:
+                self.stats.probe("read_raised")
+                if exc1 != exc2:
+                    return [Violation("C15", "answer-differs", "read:" + name, feats, exc1 or exc2, f"first call: {exc1 or 'returned'}, second call: {exc2 or 'returned'}")]
+            elif a1 != a2:
+                self._outcome = "read:answer-differs"
+                return [Violation("C15", "answer-differs", "read:" + name, feats, None, f"two consecutive calls answered differently: {str(a1)[:120]!r} vs {str(a2)[:120]!r}")]
+            d = self._mem_diff_exact(m0, self._memory())
+            if d:
+                return [Violation("C15", "read-changed-document", "read:" + name, feats + ["second_call"], None, d)]
+            can = doc_reads.md_canary()
+            if can != self.canary0:
+                self._outcome = "read:global-state"
+                return [Violation("C15", "export-context-not-reset", "read:" + name, feats + (["read_raised"] if exc1 else []), None,
+                                  f"after this call a fresh little document exports differently in this process: {str(can)[:160]!r} vs {str(self.canary0)[:160]!r}")]
+        self._outcome = "read:ok"
+        return []
+
+    @staticmethod
+    def _mem_diff_exact(a, b):
+        for n in a:
+            if n not in b:
+                return f"{n} disappeared"
+            if a[n] != b[n]:
+                if n in ds.STD_XML:
+                    try:
+                        ta, tb = xmlref.paragraphs_text(a[n]), xmlref.paragraphs_text(b[n])
+                        what = "readable text changed" if ta != tb else ("infoset changed" if xmlref.c14n(a[n]) != xmlref.c14n(b[n]) else "serialisation changed")
+                    except Exception:
+                        what = "changed"
+                    return f"{n}: {what} ({len(a[n])} -> {len(b[n])} bytes)"
+                return f"{n} changed"
+        for n in b:
+            if n not in a:
+                return f"{n} appeared"
+        return None
 
     # ---- C13 ----------------------------------------------------------------------
     def _c13_note(self):
